@@ -50,6 +50,20 @@ def cwStepTNW (n t : R) (x acc : List R) : List R :=
 def cwStep (tnw : Bool) (n t : R) (x acc : List R) : List R :=
   if tnw then cwStepTNW n t x acc else cwStepQSW n t x acc
 
+/-- numpy broadcasting of a scalar over a 3-vector, in the three forms cwhelper.py uses: `v * s`, `s * v`, `v / s` -/
+def vmuls (v : List R) (s : R) : List R := v.map (fun c => c * s)
+def smulv (s : R) (v : List R) : List R := v.map (fun c => s * c)
+def vdivs (v : List R) (s : R) : List R := v.map (fun c => c / s)
+
+/-- `np.sign` -/
+def signR (x : R) : R := if x > 0 then 1 else if x < 0 then -1 else 0
+
+/-- `_mat3` / `_mat6` of a propagator in the default (QSW) orientation -/
+def id3 : List (List R) := [[1, 0, 0], [0, 1, 0], [0, 0, 1]]
+def id6 : List (List R) :=
+  [[1, 0, 0, 0, 0, 0], [0, 1, 0, 0, 0, 0], [0, 0, 1, 0, 0, 0],
+   [0, 0, 0, 1, 0, 0], [0, 0, 0, 0, 1, 0], [0, 0, 0, 0, 0, 1]]
+
 /-- maneuvers expressed in the frame of the orbit (`frame=None`) -/
 inductive Man where
   | imp (tm : R) (dv : List R)
